@@ -4,7 +4,7 @@ from . import itpcommon
 
 ID = "C09"
 VARIANTS = ["fast"]
-BUDGET = {"quick": (1500, 120), "thorough": (40000, 1500)}
+BUDGET = {"quick": (1100, 110), "thorough": (40000, 1500)}
 RULE = ("As C08 with k in 3..6 ordered groups per request. Oracle: the k-1 results are each a Craig interpolant for "
         "(G1..Gj | rest of the current assertions), I_j /\\ G_{j+1} => I_{j+1} (z3+cvc5: the negation is unsat), and "
         "I_{k-1} /\\ G_k /\\ (assertions in no group) is unsat. Non-trivial = request with k >= 3 and >= 2 non-constant "
@@ -22,3 +22,5 @@ def check(case, ctx):
 
 def sample(case, res):
     return gen.render(case)
+
+SIGNATURES = itpcommon.SIGNATURES
